@@ -156,6 +156,10 @@ type Field struct {
 type Shape struct {
 	Root   *Type
 	TagKey string
+	// ConstrainedPresent: optional fields that declare options=/range= are always given a value
+	// (round trip: a Go struct cannot express "absent", its zero value would be sent and may
+	// itself be outside the declared constraint).
+	ConstrainedPresent bool
 }
 
 func L(k Kind) *Type         { return &Type{K: k} }
